@@ -102,7 +102,8 @@ def rewriteHyps (pS qS : Sexp) (script : List Sexp) : Sexp :=
     .list (.atom "hyp-failed" ::
       ((if naming && (Spec.hasUnion p || Spec.hasUnion q) then [Sexp.atom "NoNamingNearUnion"] else []) ++
        (if naming && (Spec.hasRecursion p || Spec.hasRecursion q) then [Sexp.atom "NoNamingWithRecursion"] else []) ++
-       (if naming && (Spec.hasRefInInter p || Spec.hasRefInInter q) then [Sexp.atom "NoNamedIntersectionMember"] else [])))
+       (if naming && (Spec.hasRefInInter p || Spec.hasRefInInter q) then [Sexp.atom "NoNamedIntersectionMember"] else []) ++
+       (if naming && (Spec.hasRefUnderSharedKey p || Spec.hasRefUnderSharedKey q) then [Sexp.atom "NoNamedSharedKeyInIntersection"] else [])))
   | _, _ => .list [.atom "hyp-failed"]
 
 /-- `(describe id prog files values)`: the text `describe()` prints for the single export -/
@@ -126,6 +127,7 @@ def describeHyps (progS : Sexp) : Sexp :=
       ((if Spec.hasUnion p then [Sexp.atom "NoNamingNearUnion"] else []) ++
        (if Spec.hasRecursion p then [Sexp.atom "NoNamingWithRecursion"] else []) ++
        (if Spec.hasRefInInter p then [Sexp.atom "NoNamedIntersectionMember"] else []) ++
+       (if Spec.hasRefUnderSharedKey p then [Sexp.atom "NoNamedSharedKeyInIntersection"] else []) ++
        (if Spec.noTemplateAlternation p then [] else [Sexp.atom "NoTemplateAlternation"]) ++
        (if Spec.noMixedIndexObject p then [] else [Sexp.atom "NoMixedIndexObject"])))
   | none => .list [.atom "hyp-failed"]
